@@ -42,7 +42,18 @@ impl SuspenseScope {
         global
             .all_tasks_remaining
             .update(|vec| vec.push(tasks_remaining));
-        // TODO: remove self from global if scope is disposed.
+        // Unlist the counter once it is gone. This also notifies whoever waits for "nothing is
+        // loading any more" (the blocking render): the disposal of a counter by itself notifies
+        // nobody. Created after the counter, so it is dropped after it.
+        struct Unlist(Signal<Vec<Signal<u32>>>);
+        impl Drop for Unlist {
+            fn drop(&mut self) {
+                if self.0.is_alive() {
+                    self.0.update(|vec| vec.retain(|counter| counter.is_alive()));
+                }
+            }
+        }
+        let _ = create_signal(Unlist(global.all_tasks_remaining));
         Self {
             tasks_remaining,
             parent: parent.map(create_signal),
